@@ -917,3 +917,28 @@ V("W5-spanned-term-skipped", "C03", ["C03.R1"], [(BASE, "                term_sp
 V("W5-poly-rejects-degree-zero", "C11", ["C11.W2"], [(POLYPY, "    if raw:\n", "    if degree < 1:\n        raise ValueError(\"`degree` must be at least 1.\")\n\n    if raw:\n")], "wave 5: C11-v2")
 V("W5-caches-on-the-class", "C18", ["C18.R8"], [(BASE, "        self.factor_cache: dict[str, EvaluatedFactor] = {}\n", "        self.factor_cache = type(self).factor_cache\n"),
                                                (BASE, "    REGISTER_NAME: Optional[str] = None\n", "    REGISTER_NAME: Optional[str] = None\n    factor_cache: dict = {}\n")], "wave 5: C18-v3 (distilled)")
+
+# ----------------------------------------------------------------------------------------- refactor round 5 restatements
+V("R5-no-wrap-before-kind", "C08", ["C08.R2"], [(BASE, "            if not isinstance(value, FactorValues):\n                value = FactorValues(value)\n", "            if isinstance(value, FactorValues):\n                value = FactorValues(value)\n")],
+  "the wrap test inverted: raw values reach the kind test unwrapped")
+V("R5-categorical-as-numerical", "C08", ["C08.R2"], [(BASE, "                if self._is_categorical(value):\n                    kind = Factor.Kind.CATEGORICAL", "                if not self._is_categorical(value):\n                    kind = Factor.Kind.CATEGORICAL")],
+  "decision inverted")
+V("R5-kind-helper-equiv", "C08", [], [(BASE, """            if value.__formulaic_metadata__.kind is Factor.Kind.UNKNOWN:
+                if self._is_categorical(value):
+                    kind = Factor.Kind.CATEGORICAL
+                    spans_intercept = True
+                else:
+                    kind = Factor.Kind.NUMERICAL
+                    spans_intercept = False
+
+                value = FactorValues(value, kind=kind, spans_intercept=spans_intercept)
+""", """            if value.__formulaic_metadata__.kind is Factor.Kind.UNKNOWN:
+                value = (
+                    FactorValues(value, kind=Factor.Kind.CATEGORICAL, spans_intercept=True)
+                    if self._is_categorical(value)
+                    else FactorValues(value, kind=Factor.Kind.NUMERICAL, spans_intercept=False)
+                )
+""")], "conditional-expression spelling of the kind resolution")
+V("R5-spans-demorgan-equiv", "C03", [], [(CONTRASTS, "        return len(levels) > 0 and not reduced_rank", "        return not (len(levels) == 0 or reduced_rank)")], "refactor C03-r26")
+V("R5-spans-or", "C03", ["C03.R5"], [(CONTRASTS, "        return len(levels) > 0 and not reduced_rank", "        return len(levels) > 0 or not reduced_rank")], "spans-intercept predicate weakened")
+V("R5-copy-drops-reduced", "C04", ["C04.R3"], [(("formulaic/materializers/types/scoped_term.py"), "                    reduced=factor.reduced,\n                )\n                for factor in factors", "                    reduced=False,\n                )\n                for factor in factors")], "recorded copy loses the reduced flags")
